@@ -102,9 +102,12 @@ impl Model {
 
     // ---- side primitives -------------------------------------------------------------------
 
-    fn rank(o: &MOrder) -> (u32, u64, u64) {
+    /// Priority of a resting order: price, then arrival at the level. A newly queued order rests "behind every
+    /// order already at that price" (C01), whatever its timestamp: with a monotone clock this is time priority;
+    /// with equal timestamps or a clock pulled back by an oversized step (C05) it is the order of queuing.
+    fn rank(o: &MOrder) -> (u32, u64) {
         let pr = if o.o.bid { PMAX - o.o.price } else { o.o.price };
-        (pr, o.qtime, o.qseq)
+        (pr, o.qseq)
     }
 
     fn side_insert(&mut self, id: usize) {
